@@ -444,6 +444,10 @@ func (p *pinfo) runCase(b *tbuf, ci int, c *caseT, rnd *rand.Rand, reps int) {
 		o := []int{1, 2, 3, 4, 5, 6}
 		rnd.Shuffle(6, func(i, j int) { o[i], o[j] = o[j], o[i] })
 		orders = append(orders, o)
+		if c.nset >= 4 {
+			// the large canonical assignments (thorough tier): one seeded order plus the all-at-once run
+			orders = orders[2:]
+		}
 	}
 	for oi, order := range orders {
 		cfg := config.New()
@@ -571,6 +575,10 @@ func main() {
 	if reps1 == 0 {
 		reps1 = 48
 	}
+	thin := 8
+	if mode == "all" {
+		thin = 16
+	}
 	reps2, _ := strconv.Atoi(os.Getenv("VERIF_C27_DUPREPS"))
 	if reps2 == 0 {
 		reps2 = 6
@@ -623,7 +631,7 @@ func main() {
 				// effort allocation (input selection only): class representatives get every case; the other
 				// parameters the single-key cases with at most one setting source and a seeded eighth of the
 				// remaining cases with at most two setting sources
-				if only == nil && !p.classRep && (c.nset > 2 || ((c.nset == 2 || c.dup || c.nalt > 0) && (ci+int(env.Seed))%8 != 0)) {
+				if only == nil && !p.classRep && (c.nset > 2 || ((c.nset == 2 || c.dup || c.nalt > 0) && (ci+int(env.Seed))%thin != 0)) {
 					continue
 				}
 				rnd := rand.New(rand.NewSource(env.Seed*1000003 + hashStr(p.Name) + int64(ci)*7919))
@@ -634,6 +642,8 @@ func main() {
 					// of different kinds (all of them in re-execution mode, a seeded third otherwise)
 					if c.nset == 1 && c.differs && p.classRep && (only != nil || (ci+int(env.Seed))%3 == 0) {
 						reps = reps1
+					} else if c.nset >= 3 {
+						reps = 1
 					}
 				}
 				p.runCase(b, ci, c, rnd, reps)
